@@ -613,6 +613,12 @@ probed:
 			if op.Blocked > 0 {
 				add("blocking", op.Name, op.String()+" blocked on a channel/timer")
 			}
+			// ... nor do they wait behind somebody who does: in a run without injected stalls virtual time passes only
+			// while every thread is blocked, so a non-blocking call that took virtual time was made to wait (e.g. for a
+			// lock whose holder sleeps)
+			if d := op.TRet - op.TInv; d > 0 && res.Faults["stall"] == 0 {
+				add("blocking", op.Name+":took-virtual-time", fmt.Sprintf("%s took %v of virtual time in a stall-free run", op.String(), d))
+			}
 		}
 		if op.Name == "Put" && sc.Kind == "buffered" && op.Blocked > 0 {
 			add("blocking", "Put", op.String()+" blocked on a channel/timer")
